@@ -1051,3 +1051,147 @@ Section Named.
     congruence.
   Qed.
 End Named.
+
+(* ================================================================== the values that meet at a boundary *)
+
+Lemma last_app_ne {A} (a b : list A) d : b <> [] -> last (a ++ b) d = last b d.
+Proof.
+  intros Hb. induction a as [|x a IH]; [reflexivity|].
+  cbn [app]. destruct (a ++ b) as [|y l] eqn:E.
+  - destruct a; cbn in E; [contradiction|discriminate].
+  - change (last (x :: y :: l) d) with (last (y :: l) d). exact IH.
+Qed.
+
+Lemma add_open_ne o us : us <> [] -> add_open o us <> [].
+Proof. destruct us; [contradiction|discriminate]. Qed.
+
+Lemma add_close_ne c us : us <> [] -> add_close c us <> [].
+Proof. destruct us as [|u [|u' r]]; [contradiction|discriminate|discriminate]. Qed.
+
+Lemma add_close_last c us : us <> [] ->
+  u_closes (last (add_close c us) dummy_unit) = u_closes (last us dummy_unit) ++ [c].
+Proof.
+  induction us as [|u r IH]; [contradiction|]. intros _.
+  destruct r as [|u' r']; [reflexivity|].
+  change (add_close c (u :: u' :: r')) with (u :: add_close c (u' :: r')).
+  assert (Hne : add_close c (u' :: r') <> []) by (apply add_close_ne; discriminate).
+  specialize (IH ltac:(discriminate)).
+  destruct (add_close c (u' :: r')) as [|y l] eqn:E; [contradiction|].
+  change (last (u :: y :: l) dummy_unit) with (last (y :: l) dummy_unit).
+  change (last (u :: u' :: r') dummy_unit) with (last (u' :: r') dummy_unit).
+  exact IH.
+Qed.
+
+Lemma add_open_last o us :
+  u_closes (last (add_open o us) dummy_unit) = u_closes (last us dummy_unit).
+Proof. destruct us as [|u [|u' r]]; reflexivity. Qed.
+
+Lemma add_open_hd o us : us <> [] ->
+  u_opens (hd dummy_unit (add_open o us)) = o :: u_opens (hd dummy_unit us).
+Proof. destruct us; [contradiction|reflexivity]. Qed.
+
+Lemma add_close_hd c us :
+  u_opens (hd dummy_unit (add_close c us)) = u_opens (hd dummy_unit us).
+Proof. destruct us as [|u [|u' r]]; reflexivity. Qed.
+
+Lemma hd_app_ne {A} (a b : list A) d : a <> [] -> hd d (a ++ b) = hd d a.
+Proof. destruct a; [contradiction|reflexivity]. Qed.
+
+Lemma lin_ne f : forall anc pg, wf_flow f = true -> lin anc pg f <> [].
+Proof.
+  induction f as [mt mb pt pb bb ba bi page kids IH|n lh o w|h] using flow_ind'; intros anc pg Hw.
+  - cbn [wf_flow] in Hw. rewrite !andb_true_iff in Hw. destruct Hw as ((_ & Hne) & Hk).
+    cbn [lin]. apply add_open_ne, add_close_ne.
+    destruct kids as [|k r]; [discriminate|].
+    apply andb_true_iff in Hk as [Hk1 _]. inversion IH as [|? ? Hk0 _]; subst.
+    intros E. apply app_eq_nil in E as [E _]. exact (Hk0 _ _ Hk1 E).
+  - cbn [wf_flow] in Hw. apply andb_true_iff in Hw as [Hn _]. apply Nat.ltb_lt in Hn.
+    cbn [lin]. destruct n; [lia|]. cbn. discriminate.
+  - cbn. discriminate.
+Qed.
+
+(* the boxes that close after the last unit of f carry closing_ba f *)
+Theorem lin_closing_values f : forall anc pg, wf_flow f = true ->
+  map c_ba (u_closes (last (lin anc pg f) dummy_unit)) = closing_ba f.
+Proof.
+  induction f as [mt mb pt pb bb ba bi page kids IH|n lh o w|h] using flow_ind'; intros anc pg Hw.
+  - pose proof Hw as Hw0.
+    cbn [wf_flow] in Hw. rewrite !andb_true_iff in Hw. destruct Hw as ((_ & Hne) & Hk).
+    cbn [lin closing_ba].
+    set (pg' := if N.eqb page 0 then pg else page). set (anc' := anc ++ [bi]).
+    set (go := fix go (ks : list flow) : list unit :=
+                 match ks with [] => [] | k :: r => lin anc' pg' k ++ go r end).
+    set (gc := fix go (ks : list flow) : list brk :=
+                 match ks with [] => [] | [k] => closing_ba k | _ :: r => go r end).
+    assert (Hgo : kids <> [] ->
+                  go kids <> [] /\ map c_ba (u_closes (last (go kids) dummy_unit)) = gc kids).
+    { clear Hne Hw0. revert Hk. induction IH as [|k r Hk0 Hr IHr]; intros Hk Hnn; [contradiction|].
+      apply andb_true_iff in Hk as [Hk1 Hk2].
+      destruct r as [|k' r'].
+      - cbn [go gc]. rewrite app_nil_r. split; [apply lin_ne; auto|apply Hk0; auto].
+      - destruct (IHr Hk2) as [Hne' Heq]; [discriminate|].
+        change (go (k :: k' :: r')) with (lin anc' pg' k ++ go (k' :: r')).
+        change (gc (k :: k' :: r')) with (gc (k' :: r')).
+        split.
+        + intros E. apply app_eq_nil in E as [_ E]. contradiction.
+        + rewrite last_app_ne by exact Hne'. exact Heq. }
+    destruct kids as [|k0 r0]; [discriminate|].
+    destruct Hgo as [Hne' Heq]; [discriminate|].
+    rewrite add_open_last, add_close_last by exact Hne'.
+    rewrite map_app. cbn [map c_ba]. now rewrite Heq.
+  - cbn [lin closing_ba wf_flow] in *. apply andb_true_iff in Hw as [Hn _]. apply Nat.ltb_lt in Hn.
+    destruct n; [lia|]. rewrite seq_S, map_app. cbn [map]. rewrite last_last. reflexivity.
+  - reflexivity.
+Qed.
+
+(* the boxes that open before the first unit of f carry opening_bb f *)
+Theorem lin_opening_values f : forall anc pg, wf_flow f = true ->
+  map o_bb (u_opens (hd dummy_unit (lin anc pg f))) = opening_bb f.
+Proof.
+  induction f as [mt mb pt pb bb ba bi page kids IH|n lh o w|h] using flow_ind'; intros anc pg Hw.
+  - cbn [wf_flow] in Hw. rewrite !andb_true_iff in Hw. destruct Hw as ((_ & Hne) & Hk).
+    cbn [lin opening_bb].
+    destruct kids as [|k r]; [discriminate|].
+    apply andb_true_iff in Hk as [Hk1 Hk2]. inversion IH as [|? ? Hk0 _]; subst.
+    set (pg' := if N.eqb page 0 then pg else page). set (anc' := anc ++ [bi]).
+    assert (Hl : lin anc' pg' k <> []) by (apply lin_ne; auto).
+    rewrite add_open_hd.
+    + rewrite add_close_hd. cbn [map o_bb]. f_equal.
+      rewrite hd_app_ne by exact Hl. apply Hk0; auto.
+    + apply add_close_ne. intros E. apply app_eq_nil in E as [E _]. contradiction.
+  - cbn [lin opening_bb wf_flow] in *. apply andb_true_iff in Hw as [Hn _]. apply Nat.ltb_lt in Hn.
+    destruct n; [lia|]. reflexivity.
+  - reflexivity.
+Qed.
+
+(* the break value the model uses at the boundary between two sibling boxes is the one the
+   tree-level specification gives *)
+Theorem boundary_brk_siblings f1 f2 anc1 pg1 anc2 pg2 pre post :
+  wf_flow f1 = true -> wf_flow f2 = true ->
+  boundary_brk (pre ++ lin anc1 pg1 f1 ++ lin anc2 pg2 f2 ++ post)
+               (length pre + length (lin anc1 pg1 f1)) = sibling_break f1 f2.
+Proof.
+  intros H1 H2. unfold boundary_brk, sibling_break, unit_at. f_equal.
+  pose proof (lin_ne f1 anc1 pg1 H1) as N1. pose proof (lin_ne f2 anc2 pg2 H2) as N2.
+  rewrite <- (lin_closing_values f1 anc1 pg1 H1), <- (lin_opening_values f2 anc2 pg2 H2).
+  set (l1 := lin anc1 pg1 f1) in *. set (l2 := lin anc2 pg2 f2) in *.
+  assert (L1 : 1 <= length l1) by (destruct l1; [contradiction|cbn; lia]).
+  assert (Hlast : forall (l : list unit), l <> [] -> nth (length l - 1) l dummy_unit = last l dummy_unit).
+  { induction l as [|u r IH]; [contradiction|]. intros _.
+    destruct r as [|u' r']; [reflexivity|].
+    change (last (u :: u' :: r') dummy_unit) with (last (u' :: r') dummy_unit).
+    rewrite <- IH by discriminate.
+    replace (length (u :: u' :: r') - 1) with (S (length (u' :: r') - 1)) by (cbn [length]; lia).
+    reflexivity. }
+  f_equal.
+  - (* the unit before the boundary is the last unit of f1 *)
+    do 2 f_equal.
+    rewrite app_nth2 by lia.
+    replace (length pre + length l1 - 1 - length pre) with (length l1 - 1) by lia.
+    rewrite app_nth1 by lia. apply Hlast; exact N1.
+  - do 2 f_equal.
+    rewrite app_nth2 by lia.
+    replace (length pre + length l1 - length pre) with (length l1) by lia.
+    rewrite app_nth2 by lia. rewrite Nat.sub_diag.
+    destruct l2; [contradiction|reflexivity].
+Qed.
